@@ -254,14 +254,15 @@ impl JobServer {
                 None
             };
             match from_env {
-                Some(cheat_fds) => cheat_fds,
+                Some(cheat_fds) => (cheat_fds, false),
                 None => {
                     let (a, b) = make_pipe(102).map_err(RedoError::opaque_error)?;
                     env::set_var(JobServer::ENV_CHEATFDS, format!("{},{}", a, b));
-                    (a, b)
+                    ((a, b), true)
                 }
             }
         };
+        let (cheat_fds, owns_cheat_pipe) = cheat_fds;
         #[cfg(feature = "verif")]
         crate::verif::point(
             "js.setup",
@@ -277,6 +278,7 @@ impl JobServer {
                 params: Rc::new(ServerParams {
                     token_fds,
                     cheat_fds,
+                    owns_cheat_pipe,
                     top_level: 0,
                 }),
                 state: Rc::new(RefCell::new(ServerState::default())),
@@ -295,6 +297,7 @@ impl JobServer {
                     params: Rc::new(ServerParams {
                         token_fds,
                         cheat_fds,
+                        owns_cheat_pipe,
                         top_level: realmax,
                     }),
                     state,
@@ -563,6 +566,26 @@ impl JobServer {
             );
             write_tokens(self.params.cheat_fds.1, state.cheats as usize)
                 .map_err(RedoError::opaque_error)?;
+        } else if self.params.top_level == 0 && state.my_tokens == 0 && self.params.owns_cheat_pipe {
+            // The same situation at the top of the redo tree, under somebody else's
+            // jobserver (make): no redo above us reads IOUs, and our caller counts on
+            // the job slot it lent us implicitly.  Our token went into the pipe when
+            // we waited for a lock; take one back before leaving.
+            let mut b = [0u8; 1];
+            loop {
+                match unistd::read(self.params.token_fds.0, &mut b) {
+                    Ok(1) => break,
+                    Ok(_) => return Err(RedoError::new("unexpected EOF on token read")),
+                    Err(Errno::EINTR) => continue,
+                    Err(e) => return Err(RedoError::opaque_error(e)),
+                }
+            }
+            state.my_tokens += 1;
+            #[cfg(feature = "verif")]
+            crate::verif::point(
+                "js.read",
+                &format!("{} {}", state.my_tokens, state.cheats),
+            );
         } else if self.params.top_level == 0 && state.my_tokens == 0 {
             #[cfg(feature = "verif")]
             crate::verif::point("js.cheatwrite", "1 0 0");
@@ -595,6 +618,9 @@ impl Drop for JobServer {
 struct ServerParams {
     token_fds: (RawFd, RawFd),
     cheat_fds: (RawFd, RawFd),
+    /// Whether this process created the cheat pipe: it is the top of its redo tree,
+    /// and no redo above it reads the IOUs left there.
+    owns_cheat_pipe: bool,
     top_level: i32,
 }
 
